@@ -537,7 +537,7 @@ def _parallel_cfgs(tier):
     return out
 
 
-def _real_pool_replay(n, workers, order, fail_branch=None):
+def _real_pool_replay(n, workers, order, fail_branch=None, with_agg=True):
     """run the REAL ParallelModel on the real ThreadPoolExecutor forcing the given completion order with events"""
     from kaira.models.generic.parallel import ParallelModel
 
@@ -563,7 +563,7 @@ def _real_pool_replay(n, workers, order, fail_branch=None):
         seen["agg"] = list(vals)
         return list(vals)
 
-    m = ParallelModel(max_workers=workers, steps=[(f"b{b}", mk(b)) for b in range(n)], aggregator=agg)
+    m = ParallelModel(max_workers=workers, steps=[(f"b{b}", mk(b)) for b in range(n)], aggregator=agg if with_agg else None)
     out = m("x")
     return out
 
@@ -596,10 +596,14 @@ def parallel_schedules(spec, cfg, tier, seed):
         for b in current["order"]:
             yield fl[b]
 
-    real_exec, real_asc = PM.ThreadPoolExecutor, PM.as_completed
-    PM.ThreadPoolExecutor, PM.as_completed = StubExecutor, stub_as_completed
+    # the executor contract stub needs the names the pinned code imports; if a changed tree waits for its futures through another
+    # API, the stub exploration is skipped and the REAL thread pool below decides alone (forced completion orders)
+    has_api = hasattr(PM, "ThreadPoolExecutor") and hasattr(PM, "as_completed")
+    real_exec, real_asc = getattr(PM, "ThreadPoolExecutor", None), getattr(PM, "as_completed", None)
+    if has_api:
+        PM.ThreadPoolExecutor, PM.as_completed = StubExecutor, stub_as_completed
     try:
-        for order in orders:
+        for order in orders if has_api else []:
             for fail_branch in [None] + ([0] if n > 1 else []):
                 current["order"] = order
                 tr = Trace()
@@ -636,8 +640,34 @@ def parallel_schedules(spec, cfg, tier, seed):
                 if seen.get("agg") != [want_val(b) for b in range(n)] and fails["agg"] is None:
                     fails["agg"] = {"completion_order": list(order), "aggregator_received": repr(seen.get("agg"))[:300], "fail_branch": fail_branch}
     finally:
-        PM.ThreadPoolExecutor, PM.as_completed = real_exec, real_asc
+        if has_api:
+            PM.ThreadPoolExecutor, PM.as_completed = real_exec, real_asc
+    # the same schedules on the REAL ThreadPoolExecutor: completion order forced with events, no failing branch / the branch that
+    # completes first / the branch that completes last raises
+    rfails = {"names": None, "agg": None}
+    nreal = 0
+    for order in orders:
+        for fail_branch in [None] + ([order[0], order[-1]] if n > 1 else []):
+            for with_agg in (False, True):
+                try:
+                    got = _real_pool_replay(n, workers, order, fail_branch, with_agg=with_agg)
+                except Exception as e:
+                    got = f"raised {e!r}"
+                nreal += 1
+                val = lambda b: (f"Error: boom{b}" if fail_branch == b else f"r{b}")
+                if with_agg:
+                    if got != [val(b) for b in range(n)] and rfails["agg"] is None:
+                        rfails["agg"] = {"completion_order": list(order), "fail_branch": fail_branch, "aggregator_received": repr(got)[:300]}
+                elif got != {f"b{b}": val(b) for b in range(n)} and rfails["names"] is None:
+                    rfails["names"] = {"completion_order": list(order), "fail_branch": fail_branch, "result": repr(got)[:300]}
     out = []
+    for key, nm in (("names", "real_pool.each_result_under_its_own_name"), ("agg", "real_pool.aggregator_gets_declared_order")):
+        r = _res(spec, cfg, nm, rfails[key] is None, f"{nreal} runs on the real ThreadPoolExecutor, completion orders forced with events (all {len(orders)} admissible orders; no / first-completing / last-completing branch raises)", witness=rfails[key], t0=t0)
+        if rfails[key] is not None:
+            r.replay_confirmed = True
+        out.append(r)
+    if not has_api:
+        return out
     detail = f"all {len(orders)} completion orders admissible for {n} branches / max_workers={workers}, with and without a failing branch (executor contract stub)"
     for key, nm in (("names", "each_result_under_its_own_name"), ("once", "each_branch_called_once_with_input_and_args"), ("errors", "exceptions_reported_under_branch_name"), ("agg", "aggregator_gets_declared_order")):
         w = fails[key]
@@ -785,3 +815,106 @@ def step_list_unbounded(spec, cfg, tier, seed):
                 r.replay_confirmed = False
         out.append(r)
     return out
+
+
+# ------------------------------------------------------------------------------------------------ subclasses of the folds
+@obligation("C17.subclasses_run_their_step_list", function=FM + "channel_code.py:ChannelCodeModel.__init__; " + FM + "deepjscc.py:DeepJSCCModel.__init__; " + FM + "generic/sequential.py:SequentialModel.forward",
+            configs=lambda tier: [Cfg("subclasses", "sequential")], kind="ground", engine="ground")
+def subclasses_run_their_step_list(cfg):
+    """the fold contract (C17.fold_unbounded: forward folds the input through self.steps, whatever its length) is stated on
+    SequentialModel.forward.  It carries over to a subclass only if the subclass RUNS that forward on that list: for every subclass of
+    SequentialModel found in kaira.models, (a) forward / add_step / remove_step are the inherited functions, or (b) failing that, the
+    stage list edited by add_step / remove_step is what a run executes (recording stubs, histories of edits)"""
+    import importlib
+    import pkgutil
+
+    import kaira.models as KM
+    from kaira.models.generic.sequential import SequentialModel
+
+    for mi in pkgutil.walk_packages(KM.__path__, "kaira.models."):
+        try:
+            importlib.import_module(mi.name)
+        except Exception:
+            pass
+
+    def subs(c):
+        out = []
+        for s_ in c.__subclasses__():
+            out += [s_] + subs(s_)
+        return out
+
+    found = [c for c in subs(SequentialModel) if c.__module__.startswith("kaira.")]
+    yield "subclasses_found", len(found) >= 2, f"{[c.__name__ for c in found]}"
+    for c in found:
+        inherited = c.forward is SequentialModel.forward and c.add_step is SequentialModel.add_step and c.remove_step is SequentialModel.remove_step
+        ok, note = inherited, "forward, add_step, remove_step inherited from SequentialModel"
+        if not inherited:
+            ok, note = _subclass_history_check(c)
+        yield f"{c.__name__}.runs_the_edited_stage_list", ok, note
+        # the constructor's stage list is the documented pipeline order, built from the objects it was given
+        try:
+            names, m = _build_subclass(c)
+            got = [getattr(s_, "vk_name", "?") for s_ in m.steps]
+            yield f"{c.__name__}.constructor_stage_order", got == names, f"steps {got}, documented order {names}"
+        except Exception as e:
+            yield f"{c.__name__}.constructor_stage_order", False, f"construction with stub stages raised {e!r}"
+
+
+def _stub_module(name, log, a, b):
+    class St(torch.nn.Module):
+        vk_name = name
+
+        def forward(self, x, *args, **kwargs):
+            log.append(name)
+            return x * a + b
+
+    return St()
+
+
+def _build_subclass(c, log=None):
+    import inspect
+
+    log = [] if log is None else log
+    params = [p for p in inspect.signature(c.__init__).parameters if p not in ("self", "args", "kwargs")]
+    coef = [(2.0, 1.0), (-3.0, 0.5), (0.5, -2.0), (4.0, 3.0), (-1.5, 0.25), (3.0, -1.0), (0.25, 2.0)]
+    stages = {p: _stub_module(p, log, *coef[i % len(coef)]) for i, p in enumerate(params)}
+    m = c(**stages)
+    order = {"ChannelCodeModel": ["encoder", "modulator", "constraint", "channel", "demodulator", "decoder"], "DeepJSCCModel": ["encoder", "constraint", "channel", "decoder"]}.get(c.__name__, params)
+    return order, m
+
+
+def _subclass_history_check(c):
+    """recording stubs: after each history of edits the stages that run are exactly m.steps, in order, and the output is their fold"""
+    try:
+        for hist in (("add",), ("rm", 2), ("rm", 0), ("add", "add"), ("rm", 1, "add"), ()):
+            log = []
+            _, m = _build_subclass(c, log)
+            k = 0
+            for op in hist:
+                if op == "add":
+                    m.add_step(_stub_module(f"post{k}", log, 10.0 + k, -1.0))
+                    k += 1
+                elif isinstance(op, int):
+                    continue
+                elif op == "rm":
+                    pass
+            # removal indices follow the "rm" markers
+            it = iter(hist)
+            for op in it:
+                if op == "rm":
+                    m.remove_step(next(it))
+            log.clear()
+            x = torch.tensor([[1.0, -2.0, 0.5]])
+            with torch.no_grad():
+                y = m(x)
+            want_names = [getattr(s_, "vk_name", "?") for s_ in m.steps]
+            want = x
+            for s_ in m.steps:
+                before = list(log)
+                want = s_(want)
+                del log[len(before):]
+            if log != want_names or not torch.allclose(y, want):
+                return False, f"history {hist}: stages run {log}, stage list {want_names}; output {y.tolist()}, fold of the stage list {want.tolist()}"
+        return True, "forward overridden; histories of add_step / remove_step executed with recording stubs: the edited stage list is what runs"
+    except Exception as e:
+        return False, f"history check raised {e!r}"
